@@ -1120,6 +1120,8 @@ Qed.
 
 Ltac tcbn H := cbn [t_key t_name t_nr t_state t_size t_bs t_next t_recvd t_payload t_cap t_data t_saved set_recvd set_next set_payload set_data set_buf set_state set_size set_saved set_bs is_active] in H.
 
+Ltac tcbng := cbn [t_key t_name t_nr t_state t_size t_bs t_next t_recvd t_payload t_cap t_data t_saved set_recvd set_next set_payload set_data set_buf set_state set_size set_saved set_bs is_active].
+
 Section InOrderRun.
   Variables (c : cfg) (k : key) (name : list N) (nr size bs cap : N) (i : nat).
   Hypothesis Hbs : 0 < bs.
@@ -1399,4 +1401,266 @@ Proof.
   destruct HD as [t [D1 [D2 [D3 [D4 [D5 [D6 [D7 [D8 [D9 D10]]]]]]]]]].
   exists i, t. repeat split; auto.
   rewrite Hpub, nth_error_map, D1. cbn. rewrite D2, D3. reflexivity.
+Qed.
+
+(* ------------------------------------------------------------------ no panic, bounded pre-allocation *)
+(* DLT string / raw arguments carry a 16 bit length *)
+Definition wf_msg (m : msg) : Prop := Forall (fun a => lenN (a_raw a) <= 65535) (m_args m).
+
+(* counters of a transfer after n messages *)
+Definition tb (n : N) (t : transfer) : Prop :=
+  1 <= t_next t /\ t_next t <= t_recvd t + 1 /\ t_recvd t <= n /\ t_payload t <= 65535 * t_recvd t /\ t_cap t <= MAX_PREALLOC.
+Definition CInv (n : N) (s : st) : Prop := s_gen s <= 1 + n /\ Forall (tb n) (s_transfers s).
+
+Lemma tb_mono n n' t : tb n t -> n <= n' -> tb n' t.
+Proof. unfold tb. intros [H1 [H2 [H3 [H4 H5]]]] Hn. repeat split; auto; lia. Qed.
+
+Lemma flst_capacity_le nr bs : flst_capacity nr bs <= MAX_PREALLOC.
+Proof. unfold flst_capacity. lia. Qed.
+
+Lemma check_finished_false_ok t : exists t' ch, check_finished t false = Ok (t', ch) /\
+  t_next t' = t_next t /\ t_recvd t' = t_recvd t /\ t_payload t' = t_payload t /\ t_cap t' = t_cap t.
+Proof.
+  unfold check_finished.
+  destruct ((t_nr t <? t_next t) && ((t_size t =? 0) || (t_size t =? t_payload t))); [eexists; eexists; split; [reflexivity|cbn; auto]|].
+  destruct (t_nr t <=? t_recvd t); eexists; eexists; (split; [reflexivity|cbn; auto]).
+Qed.
+
+Lemma add_flda_ok n t pnr raw :
+  tb n t -> lenN raw <= 65535 -> n < u32max ->
+  exists t' ch, add_flda t pnr raw = Ok (t', ch) /\ tb (n + 1) t'.
+Proof.
+  intros Ht Hraw Hn. unfold add_flda, add_flda_gen.
+  set (t1 := if (pnr =? 1) && (t_bs t =? 0) then set_bs (lenN raw) t else t).
+  assert (Ht1 : tb n t1) by (unfold t1; destruct ((pnr =? 1) && (t_bs t =? 0)); [exact Ht|exact Ht]).
+  clearbody t1. destruct Ht1 as [B1 [B2 [B3 [B4 B5]]]]. unfold u32max in Hn.
+  destruct (is_active (t_state t1)); [|exists t1, false; split; [reflexivity|unfold tb; repeat split; auto; lia]].
+  destruct (true && (0 <? pnr) && (pnr <? t_next t1)); [exists t1, false; split; [reflexivity|unfold tb; repeat split; auto; lia]|].
+  unfold add_chk. replace (t_recvd t1 + 1 <=? u64max) with true by (symmetry; apply N.leb_le; unfold u64max; lia).
+  cbn [bind]. tcbng.
+  match goal with |- context [if ?cond then _ else Ok (set_recvd _ _)] => destruct cond end.
+  - replace (t_next t1 + 1 <=? u64max) with true by (symmetry; apply N.leb_le; unfold u64max; lia). cbn [bind].
+    replace (t_payload t1 + lenN raw <=? usizemax) with true by (symmetry; apply N.leb_le; unfold usizemax, u64max; lia). cbn [bind].
+    match goal with |- context [check_finished ?t2 false] => destruct (check_finished_false_ok t2) as [t' [ch [E [F1 [F2 [F3 F4]]]]]] end.
+    exists t', ch. split; [exact E|]. unfold tb. rewrite F1, F2, F3, F4. tcbng. repeat split; auto; lia.
+  - cbn [bind].
+    match goal with |- context [check_finished ?t2 false] => destruct (check_finished_false_ok t2) as [t' [ch [E [F1 [F2 [F3 F4]]]]]] end.
+    exists t', ch. split; [exact E|]. unfold tb. rewrite F1, F2, F3, F4. tcbng. repeat split; auto; lia.
+Qed.
+
+Lemma check_finished_true_ok n t : tb n t -> exists t' ch, check_finished t true = Ok (t', ch) /\ tb n t'.
+Proof.
+  intros [B1 [B2 [B3 [B4 B5]]]]. unfold check_finished, sub_chk.
+  replace (1 <=? t_next t) with true by (symmetry; apply N.leb_le; exact B1). cbn [bind].
+  destruct (t_recvd t =? t_next t - 1).
+  - destruct (t_state t); try (exists t, false; split; [reflexivity|unfold tb; auto]).
+    eexists; eexists; split; [reflexivity|]. cbn. destruct (t_size t =? 0); unfold tb; cbn; auto.
+  - eexists; eexists; split; [reflexivity|]. unfold tb; cbn; auto.
+Qed.
+
+Lemma check_auto_save_tb c n t fs : tb n t -> tb n (fst (check_auto_save c t fs)).
+Proof.
+  intros Ht. unfold check_auto_save. destruct (c_glob c) as [g|]; [|exact Ht].
+  destruct (tstate_eqb (t_state t) Complete && negb (bytes_eqb (t_data t) []) && g (t_name t)); [|exact Ht].
+  destruct Ht as [B1 [B2 [B3 [B4 B5]]]].
+  destruct (negb (path_exists fs (path_join (save_dir c) (base_name t)))); cbn [fst t_cap set_saved];
+    destruct (negb (c_allow_save c) && (0 <? t_cap t)); unfold tb; cbn; repeat split; auto; lia.
+Qed.
+
+Lemma ho_t_tb n t : tb n t -> tb n (ho_t t).
+Proof. intros [B1 [B2 [B3 [B4 B5]]]]. unfold ho_t. destruct (takes t); unfold tb; cbn; repeat split; auto; lia. Qed.
+
+Lemma update_state_ok n s :
+  s_gen s + 1 <= u32max -> Forall (tb n) (s_transfers s) ->
+  exists s', update_state s = Ok s' /\ s_gen s' = s_gen s + 1 /\ Forall (tb n) (s_transfers s').
+Proof.
+  intros Hg Ht. unfold update_state, add_chk. replace (s_gen s + 1 <=? u32max) with true by (symmetry; apply N.leb_le; exact Hg).
+  cbn [bind]. eexists. split; [reflexivity|]. cbn. split; [reflexivity|].
+  apply Forall_forall. intros t Hin. apply in_map_iff in Hin. destruct Hin as [t0 [<- Hin]]. apply ho_t_tb.
+  rewrite Forall_forall in Ht. auto.
+Qed.
+
+Lemma Forall_replace_nth {A} (P : A -> Prop) l i x : Forall P l -> P x -> Forall P (replace_nth i x l).
+Proof.
+  intros Hl Hx. revert i. induction Hl as [|y l Hy Hl IH]; intros [|i]; cbn; constructor; auto.
+Qed.
+
+Lemma after_change_ok c n s i t :
+  s_gen s + 1 <= u32max -> Forall (tb n) (s_transfers s) -> tb n t ->
+  exists s', after_change c s i t = Ok s' /\ s_gen s' = s_gen s + 1 /\ Forall (tb n) (s_transfers s').
+Proof.
+  intros Hg Hts Ht. unfold after_change.
+  assert (H2 : tb n (fst (if tstate_eqb (t_state t) Complete then check_auto_save c t (s_fs s) else (t, s_fs s)))).
+  { destruct (tstate_eqb (t_state t) Complete); [apply check_auto_save_tb; exact Ht|exact Ht]. }
+  destruct (if tstate_eqb (t_state t) Complete then check_auto_save c t (s_fs s) else (t, s_fs s)) as [t1 fs1]. cbn [fst] in H2.
+  match goal with |- context [update_state ?s0] => destruct (update_state_ok n s0) as [s' [E [G T]]] end.
+  - cbn. exact Hg.
+  - cbn. apply Forall_replace_nth; assumption.
+  - exists s'. split; [exact E|]. split; [exact G|exact T].
+Qed.
+
+Lemma flda_args_wf m serial pnr raw : wf_msg m -> flda_args (m_args m) = Some (serial, pnr, raw) -> lenN raw <= 65535.
+Proof.
+  unfold wf_msg, flda_args. destruct (m_args m) as [|a0 [|a1 [|a2 [|a3 r]]]]; try discriminate.
+  intros Hw H. destruct (arg_as_uint a1); [|discriminate]. destruct (arg_as_uint a2); [|discriminate].
+  inversion H; subst. inversion Hw as [|? ? _ Hw1]. inversion Hw1 as [|? ? _ Hw2]. inversion Hw2 as [|? ? _ Hw3].
+  inversion Hw3 as [|? ? Hfin _]. exact Hfin.
+Qed.
+
+Lemma step_ok c pre n s m :
+  Inv0 c pre s -> CInv n s -> n + 2 <= u32max -> wf_msg m ->
+  exists s' b, step c s m = Ok (s', b) /\ CInv (n + 1) s'.
+Proof.
+  intros HI [Hg Hts] Hn Hw.
+  assert (Hts1 : Forall (tb (n + 1)) (s_transfers s)).
+  { eapply Forall_impl; [|exact Hts]. intros t Ht. eapply tb_mono; [exact Ht|lia]. }
+  assert (Hsame : CInv (n + 1) s) by (split; [lia|exact Hts1]).
+  assert (Hgen : s_gen s + 1 <= u32max) by lia.
+  unfold step. destruct (classify c m).
+  - unfold step_flst. destruct ((0 <? f_nr (parse_flst (m_args m))) && (0 <? f_bs (parse_flst (m_args m)))); cbn [bind].
+    2:{ eexists; eexists; split; [reflexivity|exact Hsame]. }
+    unfold with_capacity.
+    match goal with |- context [if ?x <=? 9223372036854775807 then _ else _] =>
+      assert (Hc : x <= MAX_PREALLOC) by (destruct (c_allow_save c || glob_matches c (f_name (parse_flst (m_args m)))); [apply flst_capacity_le|unfold MAX_PREALLOC; lia]);
+      replace (x <=? 9223372036854775807) with true by (symmetry; apply N.leb_le; unfold MAX_PREALLOC in Hc; lia) end.
+    cbn [bind].
+    match goal with |- context [update_state ?s0] => destruct (update_state_ok (n + 1) s0) as [s' [E [G T]]] end.
+    + cbn. exact Hgen.
+    + cbn. apply Forall_app. split; [exact Hts1|]. constructor; [|constructor]. unfold tb. cbn. repeat split; auto; lia.
+    + rewrite E. cbn [bind]. eexists; eexists; split; [reflexivity|]. split; [rewrite G; cbn [s_gen push_transfer]; lia|exact T].
+  - unfold step_flda. destruct (flda_args (m_args m)) as [[[serial pnr] raw]|] eqn:Ea.
+    2:{ cbn [bind]. eexists; eexists; split; [reflexivity|exact Hsame]. }
+    pose proof (flda_args_wf _ _ _ _ Hw Ea) as Hraw.
+    assert (Hnn : n < u32max) by lia.
+    unfold flda_apply. destruct (lookup_key (m_ecu m, m_lc m, serial) (s_idx s)) as [i|] eqn:El.
+    + destruct (inv_idx _ _ _ HI _ _ El) as [t [Ht _]]. rewrite Ht.
+      assert (Htb : tb n t) by (rewrite Forall_forall in Hts; apply Hts; eapply nth_error_In; exact Ht).
+      destruct (add_flda_ok n t pnr raw Htb Hraw Hnn) as [t' [ch [E Tb']]]. rewrite E. cbn [bind]. destruct ch.
+      * destruct (after_change_ok c (n + 1) s i t' Hgen Hts1 Tb') as [s' [E2 [G T]]]. rewrite E2. cbn [bind].
+        eexists; eexists; split; [reflexivity|]. split; [lia|exact T].
+      * cbn [bind]. eexists; eexists; split; [reflexivity|]. unfold put_transfer. split; cbn [s_gen s_transfers]; [lia|].
+        apply Forall_replace_nth; assumption.
+    + destruct (pnr =? 1) eqn:Ep.
+      2:{ cbn [bind]. eexists; eexists; split; [reflexivity|exact Hsame]. }
+      apply N.eqb_eq in Ep. subst pnr.
+      unfold with_capacity.
+      replace ((if c_allow_save c then 512 else 0) <=? 9223372036854775807) with true by (destruct (c_allow_save c); reflexivity).
+      cbn [bind].
+      match goal with |- context [add_flda ?t0 1 raw] =>
+        destruct (add_flda_ok n t0 1 raw) as [t' [ch [E Tb']]]; [unfold tb; cbn; repeat split; try lia; destruct (c_allow_save c); unfold MAX_PREALLOC; lia|exact Hraw|exact Hnn|] end.
+      rewrite E. cbn [bind].
+      match goal with |- context [update_state ?s0] => destruct (update_state_ok (n + 1) s0) as [s' [E2 [G T]]] end.
+      * cbn. exact Hgen.
+      * cbn. apply Forall_app. split; [exact Hts1|]. constructor; [exact Tb'|constructor].
+      * rewrite E2. cbn [bind]. eexists; eexists; split; [reflexivity|]. split; [rewrite G; cbn [s_gen push_transfer]; lia|exact T].
+  - unfold step_flfi, flfi_apply. destruct (lookup_key _ (s_idx s)) as [i|] eqn:El.
+    2:{ cbn [bind]. eexists; eexists; split; [reflexivity|exact Hsame]. }
+    destruct (inv_idx _ _ _ HI _ _ El) as [t [Ht _]]. rewrite Ht.
+    assert (Htb : tb (n + 1) t) by (rewrite Forall_forall in Hts1; apply Hts1; eapply nth_error_In; exact Ht).
+    destruct (check_finished_true_ok (n + 1) t Htb) as [t' [ch [E Tb']]]. rewrite E. cbn [bind]. destruct ch.
+    + destruct (after_change_ok c (n + 1) s i t' Hgen Hts1 Tb') as [s' [E2 [G T]]]. rewrite E2. cbn [bind].
+      eexists; eexists; split; [reflexivity|]. split; [lia|exact T].
+    + cbn [bind]. eexists; eexists; split; [reflexivity|]. unfold put_transfer. split; cbn [s_gen s_transfers]; [lia|].
+      apply Forall_replace_nth; assumption.
+  - eexists; eexists; split; [reflexivity|exact Hsame].
+Qed.
+
+Lemma run_ok c : forall ms pre n s,
+  Inv c pre s -> CInv n s -> n + N.of_nat (length ms) + 1 <= u32max -> Forall wf_msg ms ->
+  exists s' rets, run c s ms = Ok (s', rets).
+Proof.
+  induction ms as [|m r IH]; intros pre n s HI HC Hn Hw; cbn.
+  - eexists; eexists; reflexivity.
+  - inversion Hw as [|? ? Hm Hr]; subst. cbn [length] in Hn.
+    destruct (step_ok c pre n s m (proj1 HI) HC) as [s1 [b [Es HC1]]]; [lia|exact Hm|].
+    rewrite Es. cbn [bind].
+    destruct (IH (pre ++ [m]) (n + 1) s1) as [s2 [rets Er]]; [eapply step_inv; eassumption|exact HC1|lia|exact Hr|].
+    rewrite Er. cbn [bind]. eexists; eexists; reflexivity.
+Qed.
+
+(* no panic on any log of fewer than 2^32 - 2 messages whose arguments respect the 16 bit length field *)
+Theorem no_panic c fs ms :
+  N.of_nat (length ms) + 1 <= u32max -> Forall wf_msg ms -> exists s rets, run c (init_st fs) ms = Ok (s, rets).
+Proof.
+  intros Hn Hw. apply (run_ok c ms [] 0 (init_st fs)); [apply Inv_init| |lia|exact Hw].
+  split; cbn; [lia|constructor].
+Qed.
+
+(* the buffer requested for any transfer is at most MAX_PREALLOC, whatever was announced *)
+Theorem prealloc_bounded c fs ms s rets t :
+  run c (init_st fs) ms = Ok (s, rets) -> In t (s_transfers s) -> t_cap t <= MAX_PREALLOC.
+Proof.
+  intros H. revert t.
+  refine (run_app_inv (fun _ s => forall t, In t (s_transfers s) -> t_cap t <= MAX_PREALLOC) c _ ms [] (init_st fs) s rets _ H);
+    [|intros t []].
+  intros pre s0 m s' b H0 Hs. unfold step in Hs.
+  assert (Hho : forall l, (forall t, In t l -> t_cap t <= MAX_PREALLOC) -> forall t, In t (map ho_t l) -> t_cap t <= MAX_PREALLOC).
+  { intros l Hl t Hin. apply in_map_iff in Hin. destruct Hin as [t0 [<- Hin]]. unfold ho_t. destruct (takes t0); cbn; [lia|auto]. }
+  assert (Hrep : forall i x, t_cap x <= MAX_PREALLOC -> forall t, In t (replace_nth i x (s_transfers s0)) -> t_cap t <= MAX_PREALLOC).
+  { intros i x Hx t Hin. apply In_nth_error in Hin. destruct Hin as [j Hj]. apply nth_error_replace in Hj.
+    destruct Hj as [[_ [-> _]]|[_ Hj]]; [exact Hx|]. apply H0. eapply nth_error_In. exact Hj. }
+  assert (Hac : forall i x s1, t_cap x <= MAX_PREALLOC -> after_change c s0 i x = Ok s1 -> forall t, In t (s_transfers s1) -> t_cap t <= MAX_PREALLOC).
+  { intros i x s1 Hx Ha. unfold after_change in Ha.
+    assert (Hc2 : t_cap (fst (if tstate_eqb (t_state x) Complete then check_auto_save c x (s_fs s0) else (x, s_fs s0))) <= MAX_PREALLOC).
+    { destruct (tstate_eqb (t_state x) Complete); [|exact Hx]. unfold check_auto_save. destruct (c_glob c); [|exact Hx].
+      destruct (_ && _ && _); [|exact Hx]. destruct (negb (path_exists _ _)); cbn [fst t_cap set_saved];
+        destruct (negb (c_allow_save c) && (0 <? t_cap x)); cbn; lia. }
+    destruct (if tstate_eqb (t_state x) Complete then check_auto_save c x (s_fs s0) else (x, s_fs s0)) as [x1 fs1]. cbn [fst] in Hc2.
+    apply update_state_shape in Ha. destruct Ha as [E _]. rewrite E. cbn. apply Hho. apply Hrep. exact Hc2. }
+  assert (Hadd : forall t0 pnr raw t1 ch, add_flda t0 pnr raw = Ok (t1, ch) -> t_cap t1 = t_cap t0).
+  { intros t0 pnr raw t1 ch Ha. unfold add_flda, add_flda_gen in Ha.
+    set (tt := if (pnr =? 1) && (t_bs t0 =? 0) then set_bs (lenN raw) t0 else t0) in Ha.
+    assert (Ht : t_cap tt = t_cap t0) by (unfold tt; destruct ((pnr =? 1) && (t_bs t0 =? 0)); reflexivity). clearbody tt.
+    destruct (is_active (t_state tt)); [|inversion Ha; subst; exact Ht].
+    destruct (true && (0 <? pnr) && (pnr <? t_next tt)); [inversion Ha; subst; exact Ht|].
+    destruct (add_chk u64max (t_recvd tt) 1) as [rv| |]; cbn [bind] in Ha; try discriminate.
+    match type of Ha with context [if ?cond then _ else Ok (set_recvd _ _)] => destruct cond end.
+    - destruct (add_chk u64max _ 1) as [nx| |]; cbn [bind] in Ha; try discriminate.
+      destruct (add_chk usizemax _ _) as [pl| |]; cbn [bind] in Ha; try discriminate.
+      match type of Ha with check_finished ?t2 false = _ => destruct (check_finished_false_ok t2) as [t' [ch' [E [_ [_ [_ F4]]]]]]; rewrite E in Ha end.
+      inversion Ha; subst. rewrite F4. cbn. exact Ht.
+    - cbn [bind] in Ha.
+      match type of Ha with check_finished ?t2 false = _ => destruct (check_finished_false_ok t2) as [t' [ch' [E [_ [_ [_ F4]]]]]]; rewrite E in Ha end.
+      inversion Ha; subst. rewrite F4. cbn. exact Ht. }
+  destruct (classify c m).
+  - unfold step_flst in Hs. destruct (_ && _); cbn [bind] in Hs; [|inversion Hs; subst; exact H0].
+    unfold with_capacity in Hs.
+    match type of Hs with context [if ?x <=? 9223372036854775807 then _ else _] =>
+      assert (Hc : x <= MAX_PREALLOC) by (destruct (c_allow_save c || glob_matches c (f_name (parse_flst (m_args m)))); [apply flst_capacity_le|unfold MAX_PREALLOC; lia]);
+      destruct (x <=? 9223372036854775807) end; cbn [bind] in Hs; [|discriminate].
+    destruct (update_state _) as [s1| |] eqn:Eu; cbn [bind] in Hs; try discriminate. inversion Hs; subst s1 b.
+    apply update_state_shape in Eu. destruct Eu as [E _]. rewrite E. cbn. apply Hho. intros t Hin.
+    apply in_app_or in Hin. destruct Hin as [Hin|[<-|[]]]; [auto|exact Hc].
+  - unfold step_flda in Hs. destruct (flda_args (m_args m)) as [[[serial pnr] raw]|]; cbn [bind] in Hs; [|inversion Hs; subst; exact H0].
+    destruct (flda_apply _ _ _ _ _) as [s1| |] eqn:Ef; cbn [bind] in Hs; try discriminate. inversion Hs; subst s1 b.
+    unfold flda_apply in Ef. destruct (lookup_key _ _) as [i|].
+    + destruct (nth_error (s_transfers s0) i) as [t0|] eqn:Et; [|discriminate].
+      destruct (add_flda t0 pnr raw) as [[t1 ch]| |] eqn:Ea; cbn [bind] in Ef; try discriminate.
+      assert (Hc1 : t_cap t1 <= MAX_PREALLOC) by (rewrite (Hadd _ _ _ _ _ Ea); apply H0; eapply nth_error_In; exact Et).
+      destruct ch; [eapply Hac; eassumption|]. inversion Ef; subst s'. cbn. apply Hrep. exact Hc1.
+    + destruct (pnr =? 1); [|inversion Ef; subst; exact H0].
+      unfold with_capacity in Ef. destruct (_ <=? _); cbn [bind] in Ef; [|discriminate].
+      destruct (add_flda _ pnr raw) as [[t1 ch]| |] eqn:Ea; cbn [bind] in Ef; try discriminate.
+      apply Hadd in Ea. cbn in Ea.
+      apply update_state_shape in Ef. destruct Ef as [E _]. rewrite E. cbn. apply Hho. intros t Hin.
+      apply in_app_or in Hin. destruct Hin as [Hin|[<-|[]]]; [auto|]. rewrite Ea. destruct (c_allow_save c); unfold MAX_PREALLOC; lia.
+  - unfold step_flfi in Hs. destruct (flfi_apply _ _ _) as [s1| |] eqn:Ef; cbn [bind] in Hs; try discriminate. inversion Hs; subst s1 b.
+    unfold flfi_apply in Ef. destruct (lookup_key _ _) as [i|]; [|inversion Ef; subst; exact H0].
+    destruct (nth_error (s_transfers s0) i) as [t0|] eqn:Et; [|discriminate].
+    destruct (check_finished t0 true) as [[t1 ch]| |] eqn:Ea; cbn [bind] in Ef; try discriminate.
+    assert (Hc1 : t_cap t1 <= MAX_PREALLOC).
+    { apply check_finished_true_spec in Ea. destruct Ea as [_ [[_ [_ [_ ->]]]|[[_ [_ [_ ->]]]|[_ [_ ->]]]]]; cbn;
+        try (destruct (t_size t0 =? 0); cbn); apply H0; eapply nth_error_In; exact Et. }
+    destruct ch; [eapply Hac; eassumption|]. inversion Ef; subst s'. cbn. apply Hrep. exact Hc1.
+  - inversion Hs; subst. exact H0.
+Qed.
+
+(* process_msg returns false (drop the message) only for FLDA messages and only when keepFLDA is off *)
+Theorem drops_only_flda c s m s' : step c s m = Ok (s', false) -> classify c m = KFlda /\ c_keep_flda c = false.
+Proof.
+  unfold step. destruct (classify c m); intros H.
+  - destruct (step_flst c s m); cbn in H; inversion H.
+  - destruct (step_flda c s m); cbn in H; inversion H. auto.
+  - destruct (step_flfi c s m); cbn in H; inversion H.
+  - inversion H.
 Qed.
